@@ -124,6 +124,27 @@ def run_case(scheme, cid, cfg, cls, db, acc, rng, fresh_object=False):
                 edb2 = sch.EDBSetup(key, copy.deepcopy(db))
             variant = ":after-idle-time"
             acc.count("second_build_after_idle_time")
+        elif 0.45 <= how < 0.6 and not fresh_object:
+            # ... or by a COPY of the scheme object that made the first build (copy.deepcopy or a pickle round trip: what
+            # handing a configured scheme to a worker does); the copy inherits whatever state the object has gathered
+            import pickle as _pickle
+            try:
+                sch2 = copy.deepcopy(sch) if rng.random() < 0.5 else _pickle.loads(_pickle.dumps(sch))
+            except Exception:
+                sch2 = L.SSEScheme(copy.deepcopy(cfg))
+                acc.count("scheme_object_could_not_be_copied")
+            edb2 = sch2.EDBSetup(key, copy.deepcopy(db))
+            edb1b = sch.EDBSetup(key, copy.deepcopy(db))
+            variant = ":copied-scheme-object"
+            acc.count("second_build_by_a_copy_of_the_scheme_object")
+            if scheme != "CGKO06.SSE2":
+                ua, ub = cipher_units(scheme, sch, edb1b), cipher_units(scheme, sch2, edb2)
+                if set(ua) & set(ub):
+                    acc.violation(f"{short}:ciphertexts-repeat-across-setups:original-and-copy",
+                                  f"{scheme}: {len(set(ua) & set(ub))} of {len(ua)} ciphertext entries coincide between an "
+                                  f"index built by a scheme object and one built by its copy from the same key and database",
+                                  case)
+                    return True
         elif how < 0.45 or fresh_object:
             # ... or by ANOTHER scheme object built from the same configuration, with the key reloaded from its bytes
             # (a client that was restarted, a scheme constructed per call)
@@ -518,6 +539,8 @@ def finish(m, tier, seed):
             inc.append(f"{short}: only {per[short]['cases']} cases")
     if c.get("entries_compared_within", 0) < 10 ** 4:
         inc.append(f"only {c.get('entries_compared_within', 0)} ciphertext entries compared")
+    if c.get("second_build_by_a_copy_of_the_scheme_object", 0) < 200:
+        inc.append("fewer than 200 second builds by a copy of the scheme object")
     if c.get("second_build_by_a_fresh_scheme_object", 0) < 200 or c.get("big_block_cases", 0) < 4:
         inc.append("too few second builds by a fresh scheme object / big-block cases")
     if c.get("indexes_rescanned_after_searches", 0) < 1000 or c.get("container_cases.accepted", 0) < 10:
